@@ -423,8 +423,12 @@ def run_valid_case(ctx, stream, tys, svs, pvs, fds, expected, mbatch, ubatch, of
         fail = roundtrip_failure(sig, pvs, expected, fds, off, le, init, notes)
         ctx.impl_trace()
         if fail:
+            inp = case_json(sig, pvs, off, le, init)
+            note = fresh_process_note(ctx, violation_key(fail[0]), sig, pvs, expected, off, le, init)
+            if note:
+                inp['note'] = note
             ctx.violation(violation_key(fail[0]), 'C01 round trip: ' + fail[0],
-                          inp=case_json(sig, pvs, off, le, init), observed=fail[1],
+                          inp=inp, observed=fail[1],
                           expected='unmarshal(marshal(v)) == normalised v, equal byte counts')
     for n in notes:
         ctx.stat('note:' + n)
@@ -438,6 +442,33 @@ def run_valid_case(ctx, stream, tys, svs, pvs, fds, expected, mbatch, ubatch, of
     if cert is not None:
         le, off = model_pairs[0]
         cert.append('specenc %s %d %s %s' % (vc.str_hex(sig), off, 'L' if le else 'B', vc.to_line(pvs)))
+
+
+_FRESH_NOTES = {}
+
+
+def fresh_step_note(ctx, module, key, make_step):
+    """For the FIRST violation of a key in the single-case streams: does the case (as a one-step history) fail in a fresh
+    process too?  If not, the failure needs calls made earlier in the checking process and the single case is not a replay;
+    every later violation of the key carries the same remark (the histories of the history streams are the replayable form)."""
+    k = (id(ctx), module, key)
+    if k not in _FRESH_NOTES:
+        note = None
+        try:
+            if fresh_process_failure(ctx, module, [[make_step()]]) is None:
+                note = ('the first case reported under this key held in a fresh process: the failure depends on calls made '
+                        'earlier in the checking process (see the history-* finding for a replayable sequence)')
+                ctx.stat('violation-depends-on-process-history:' + key)
+        except ValueError:
+            pass
+        _FRESH_NOTES[k] = note
+    return _FRESH_NOTES[k]
+
+
+def fresh_process_note(ctx, key, sig, pvs, expected, off, le, init):
+    return fresh_step_note(ctx, 'c01', key, lambda: {
+        'op': 'rt', 'sig': sig, 'values': vc.to_line(pvs), 'expected': vc.to_line(expected), 'off': off, 'le': le,
+        'fds': 'omit' if init == 'omit' else vc.to_line(list(init))})
 
 
 def check_certified(ctx, stream, cert):
